@@ -44,6 +44,9 @@ type Task struct {
 	Read   ReadPlan   `json:"read"`
 	// WriteFail: the n-th Write call of the sink fails (Encode only; 0 = never)
 	WriteFail int `json:"write_fail,omitempty"`
+	// Between: applied to the File between repeated Encode calls, e.g. "proto:16"
+	// (set Header.ProtocolVersion) - a header that is re-used after a change
+	Between string `json:"between,omitempty"`
 }
 
 type Expect struct {
